@@ -274,6 +274,14 @@ def stepCore (s : St) (kind : String) (args impl : List String) : Option (St × 
     -- the next Close of the download file handle reports an error; WritePiece ignores it (the bytes were
     -- written and verified before): no effect in the model
     some (s, { obs := ["ok"], branch := "closefail" })
+  | ["tornreopen", nT] => do
+    let n ← nat? nT
+    if !quiescent s.m || s.m.inCache then none else
+    let same := n == s.m.status.length
+    -- a status vector of the wrong length is discarded: every piece is empty again, the old calls are gone
+    pure ({ s with m := KrakenModel.AgentTorrent.step crc32 s.m (.tornReopen n),
+                   verified := if same then s.verified else [], ws := if same then s.ws else [] },
+          { obs := ["ok"], branch := if same then "tornreopen.same" else if n < s.m.status.length then "tornreopen.short" else "tornreopen.long" })
   | ["recreate"] =>
     if !quiescent s.m then none else
     some ({ s with m := KrakenModel.AgentTorrent.step crc32 s.m .recreate, verified := [], ws := [] },
